@@ -16,6 +16,7 @@ CONSTANTS Engine,      \* "sync" | "async"
           GuardVals,   \* subset of {"T","F","R"} each guard may take per step
           WithCan,     \* TRUE: also explore can(e)
           PropSet,     \* ids of the Prop predicates to evaluate on every edge
+          WithBatch,   \* TRUE: also explore send_events([e1, e2]) for every pair of relevant events
           MaxStates    \* quick tier: stop expanding once this many distinct states were found
 
 VARIABLES status, config, hist, ctx, output, out, lastStep, errv, dirty
@@ -79,7 +80,11 @@ Can == /\ WithCan /\ Usable /\ status # "uninitialized"
        /\ \E ev \in Relevant : \E gv \in GVs :
              Apply(CanStep(Pack, ev, gv), [op |-> "can", ev |-> ev, gv |-> gv])
 
-Next == Start \/ Send \/ Can
+Batch == /\ WithBatch /\ Engine # "pure" /\ Usable /\ status = "running"
+         /\ \E e1 \in Relevant : \E e2 \in D.events : \E gv \in GVs :
+               Apply(BatchStep(Pack, <<e1, e2>>, gv, Engine), [op |-> "batch", ev |-> e1, ev2 |-> e2, gv |-> gv])
+
+Next == Start \/ Send \/ Can \/ Batch
 Spec == Init /\ [][Next]_vars
 
 \* breadth-first prefix of the state graph when the bound bites (evidence: exhaustive = false)
@@ -105,6 +110,7 @@ StepOn(eng, step) ==
   IN CASE step.op = "start" -> StartStep(pk, step.gv, eng)
        [] step.op = "send" /\ eng = "pure" /\ status # "running" -> Pack
        [] step.op = "send"  -> SendStep(pk, step.ev, step.gv, eng)
+       [] step.op = "batch" /\ eng # "pure" -> BatchStep(pk, <<step.ev, step.ev2>>, step.gv, eng)
        [] OTHER -> pk
 ActsOf(o) == SelectSeq(o, LAMBDA e : e.k = "act")
 ActNames(o) == LET q == ActsOf(o) IN [i \in 1..Len(q) |-> q[i].a]
@@ -113,7 +119,7 @@ RecNames(o) == LET q == SelectSeq(o, LAMBDA e : e.k = "rec") IN [i \in 1..Len(q)
 SameState(x, y) == x.config = y.config /\ x.ctx = y.ctx /\ x.status = y.status /\ x.output = y.output
 
 C05Spec(step) ==
-  IF step.op \notin {"start", "send"} THEN {}
+  IF step.op \notin {"start", "send", "batch"} THEN {}
   ELSE LET s == StepOn("sync", step)
            a == StepOn("async", step)
            p == StepOn("pure", step)
@@ -121,8 +127,8 @@ C05Spec(step) ==
           ELSE Tag(SameState(s, a), "sync_async_state")
                \cup Tag(ActNames(s.out) = ActNames(a.out), "sync_async_action_order")
                \cup Tag(ActsOf(s.out) = ActsOf(a.out) \/ ActNames(s.out) # ActNames(a.out), "sync_async_action_event")
-               \cup Tag(SameState(s, p), "sync_pure_state")
-               \cup Tag(AxNames(s.out) = RecNames(p.out), "sync_pure_actions")
+               \cup Tag(step.op = "batch" \/ SameState(s, p), "sync_pure_state")
+               \cup Tag(step.op = "batch" \/ AxNames(s.out) = RecNames(p.out), "sync_pure_actions")
 
 On(p, v) == IF p \in PropSet THEN v ELSE {}
 Props == [C01 |-> On("C01", C01(PreS, lastStep', PostS, out')),
